@@ -413,7 +413,13 @@ pub fn digest(l: &Lexed) -> u64 {
 pub fn batch_inputs(seed: u64, n: usize) -> Vec<String> {
     let mut m = Mix::new(seed);
     (0..n)
-        .map(|_| {
+        .map(|i| {
+            // a few token-dense inputs per batch: more tokens than the buffers' initial capacity
+            // (the nightly-only push_within_capacity path, the capacity heuristics)
+            if i < 4 {
+                let f = ["; ", "a=1;", "(", "%m "][i];
+                return f.repeat(20 + m.below(400));
+            }
             let len = 16 + m.below(240);
             let b = m.bytes(len);
             let mut s = Src::new(&b);
